@@ -1,6 +1,6 @@
 /-
-  RoModel.Plugins.Text — `Ellipsis` of plugins/strings/operator_ellipsis.go:23-34 and
-  plugins/bytes/operator_ellipsis.go:23-34, over byte strings, with Go slices modelled as windows
+  RoModel.Plugins.Text — `Ellipsis` of plugins/strings/operator_ellipsis.go and
+  plugins/bytes/operator_ellipsis.go (helper `ellipsis`), over byte strings, with Go slices modelled as windows
   (offset, length, capacity) on a backing array so that "the input's backing array is not written"
   can be stated.
 
@@ -104,32 +104,10 @@ def trimSpaceS (h : Bytes) (s : Slice) : Ref :=
 /-- `s[0:k]` -/
 def Slice.prefix (s : Slice) (k : Nat) : Slice := { s with len := k }
 
-def writeAt (h : Bytes) (pos : Nat) (bs : Bytes) : Bytes :=
-  h.take pos ++ bs ++ h.drop (pos + bs.length)
-
-/-- `append(r, extra...)`: in place when the capacity suffices, otherwise a new array -/
-def appendRef (h : Bytes) (r : Ref) (extra : Bytes) : Bytes × Ref :=
-  match r with
-  | .nil => (h, .fresh extra)
-  | .fresh bs => (h, .fresh (bs ++ extra))
-  | .window s =>
-    if s.len + extra.length ≤ s.cap then
-      (writeAt h (s.off + s.len) extra, .window { s with len := s.len + extra.length })
-    else (h, .fresh (s.view h ++ extra))
-
-/-- `robytes.ellipsis` (plugins/bytes/operator_ellipsis.go:23-34): heap after the call, result -/
+/-- `robytes.ellipsis` (plugins/bytes/operator_ellipsis.go): heap after the call, result.
+    The kept prefix is copied into a new array (`make` + `append`) before the dots are appended,
+    so the only windows on the caller's array it returns are sub-windows it never writes. -/
 def ellipsisB (h : Bytes) (s : Slice) (length : Int) : Bytes × Ref :=
-  match trimSpaceS h s with
-  | .window t =>
-    if (t.len : Int) > length then
-      if t.len < 3 ∨ length < 3 then (h, .fresh dots)
-      else appendRef h (trimSpaceS h (t.prefix (length - 3).toNat)) dots
-    else (h, .window t)
-  | r => if (0 : Int) > length then (h, .fresh dots) else (h, r)
-
-/-- the repaired helper (repo_fixes/C18-bytes-ellipsis.patch): copy the kept prefix into a new
-    array before appending the dots -/
-def ellipsisBFixed (h : Bytes) (s : Slice) (length : Int) : Bytes × Ref :=
   match trimSpaceS h s with
   | .window t =>
     if (t.len : Int) > length then
